@@ -13,8 +13,8 @@ CHECKS = {
         'discharged by z3 (cvc5 second opinion). pandas/SQL calculators enter through assumed contracts that the '
         'bounded layer audits on real frames.',
    note='Trusted: A-calc calculator contracts, A-card/A-pigeonhole counting axioms, FP-REAL (floats as reals), '
-        'pyvc encoding of the Python subset, z3/cvc5. Aggregation in base.verify and the tabular forms are covered by '
-        'the bounded layer only where stated in the evidence.',
+        'pyvc encoding of the Python subset, z3/cvc5. The aggregation in base.verify is proved too (nested loop invariants: per-field and '
+        'total counts equal the number of true / false verdicts); the tabular forms (to_frame, str) are covered by the bounded layer only.',
    technique='contract-based deductive verification: ast->z3 VC generation on the real functions + bounded runtime contracts (labelled)',
    design_ref='DESIGN.md 5 C02'),
 }
@@ -24,7 +24,8 @@ CHECKS['C01'] = dict(
         'discover_field_constraints (what discovery returns) implies the iff-postcondition of each verifier (the documented '
         'meaning), for every column view; discovery and all ten verifiers are shown never to raise on well-formed views; the '
         'statistic cache is shown to describe the frame it was built from. The pandas calculator, the .tdda file round trip, '
-        'repair and detection end to end are covered by the bounded layer (labelled) on enumerated frames of every column family.',
+        'repair and detection end to end are covered by the bounded layer (labelled) on enumerated frames of every column family; that get_date '
+        'inverts the text written for a date bound is decided by complete enumeration (all 10^6 microsecond values x 2 layouts, every calendar field value).',
    note='Trusted: A-calc (audited on real pandas per run), A-card, find_rexes covers its values (= C03, imported), FP-REAL, '
         'pyvc encoding, z3/cvc5. Bounded: frames up to 3 (quick) / 4 (thorough) rows per family pool + seeded columns to 30 rows.',
    technique='contract-based deductive verification (ast->z3 VCs on real functions, closure lemmas over contracts) + bounded runtime contracts (labelled)',
@@ -47,7 +48,8 @@ CHECKS['C06'] = dict(
         'the detection hook is called exactly when detecting and the verdict is a failure on an existing field, once, with the '
         "constraint's own value/precision/epsilon. Bounded (runtime contracts on real pandas code, labelled): per-record flags "
         'equal the documented meaning per kind, nulls flagged only by type/max_nulls, n_failures = false flags, counts partition '
-        'the rows, output frame/file holds the failing records, stale/absent output files, input frame unchanged.',
+        'the rows, output frame/file holds exactly the failing records (identified by index label, also on re-indexed frames), stale/absent output files, input frame unchanged. '
+        'base.verify is proved to call the detected-records writer iff something failed and to remove a stale output file otherwise.',
    note='Trusted: A-calc, A-card, A-pigeonhole, FP-REAL, pyvc encoding, z3/cvc5. The record-level sentences are decided only on the '
         'enumerated frames (<=3/4 rows per family pool + seeded columns) x one option variant per case.',
    technique='contract-based deductive verification of the verifier/hook protocol + bounded runtime contracts for record-level semantics',
@@ -81,7 +83,7 @@ CHECKS['C04'] = dict(
         'iff the reference line contains an ignore-substring or the lines are pattern-equivalent (loop invariant over the substring '
         'list; check_patterns uninterpreted). The verdict of check_strings and of the three entry points is decided by the bounded '
         'layer (labelled): an independent statement of the comparison rule (removal, stripping, substring/pattern excuses by dynamic '
-        'programming, permutation allowance) evaluated on reference texts <= 3 lines x near-miss actuals x 22 option sets, judging '
+        'programming, permutation allowance) evaluated on reference texts <= 3 lines x near-miss and compound actuals x 28 option sets, judging '
         'only cases the documents fix (must-pass and must-fail separately).',
    note='Trusted: Python re, str methods, splitlines. check_strings itself (250 lines of list surgery with regex callbacks) is not under '
         'a deductive contract: bounded only. The oracle leaves pattern cases open when strict and permissive readings differ.',
@@ -115,7 +117,9 @@ CHECKS['C03'] = dict(
    design_ref='DESIGN.md 5 C03')
 CHECKS['C13'] = dict(
    category='other',
-   text='Mixed. Exhaustive-domain: escape(c) matches exactly c for every Unicode scalar value; escaped_bracket compiles and denotes its set '
+   text='Mixed. Proved on the real rexpy.py: find_bad_patterns marks a pattern for pruning iff it has no example of its own (stable order), '
+        'ResultsSummary.remove deletes exactly the indexed entry; fragment2re renders a quantifier covering the run-length range. '
+        'Exhaustive-domain: escape(c) matches exactly c for every Unicode scalar value; escaped_bracket compiles and denotes its set '
         'for every punctuation set of size 2..4/5. Bounded (labelled): every returned expression compiles, is ^...$ anchored, matches an '
         'example, no duplicates, at most one per distinct example, none for empty input, tagged and untagged expressions match the same '
         'examples (same count without sampling), incl. max_patterns / min_strings_per_pattern settings and inputs with > 99 fragments.',
@@ -123,11 +127,12 @@ CHECKS['C13'] = dict(
    design_ref='DESIGN.md 5 C13')
 CHECKS['C14'] = dict(
    category='exploration',
-   text='Bounded only (labelled): a two-run (hyper)property over the whole pipeline that no per-function contract here carries. Runtime '
+   text='Proved on the real rexpy.py: PRNGState.__init__ saves the global state and then seeds iff a seed is given (0 included), with that seed; '
+        'restore puts the saved state back iff one was saved. The rest is bounded only (labelled): a two-run (hyper)property over the whole pipeline that no per-function contract here carries. Runtime '
         'contracts: same expressions for every permutation (<= 4 examples: all 24), list vs frequency dict, repeated example, repeated '
         'call; with a seed: reproducible, independent of the global PRNG, random.getstate() unchanged - over word multisets x options x '
         'Size settings that force sampling x seeds.',
-   note=_REX_NOTE + ' The PRNG typestate proof planned in DESIGN.md is not built.',
+   note=_REX_NOTE + ' That extract() brackets its sampling between PRNGState() and restore() is checked at run time only (random.getstate() before/after).',
    technique='bounded runtime contracts (relational checks over permutations, input forms and PRNG state)',
    design_ref='DESIGN.md 5 C14')
 CHECKS['C18'] = dict(
@@ -143,10 +148,11 @@ CHECKS['C09'] = dict(
    text='Mixed. Proved on the real base.py: to_preferred_order puts known kinds in the standard order followed by the rest sorted and '
         'returns a permutation of the keys; Constraint / MinConstraint / MaxConstraint.to_dict_value render dates as text (also inside the '
         '{value, precision} form) and leave every other value untouched, for every value type x precision x raw; get_date leaves '
-        'non-strings (null bounds) alone. Bounded (labelled): write -> load -> write gives identical constraint text and is idempotent, '
+        'non-strings (null bounds) alone; initialize_from_dict builds one constraint per known kind with the re-parsed value (plain and {value, precision} forms) and ignores unknown kinds. '
+        'Exhaustive-domain: get_date inverts the text written for a date (all 10^6 microsecond values x 2 layouts, every calendar field value). Bounded (labelled): write -> load -> write gives identical constraint text and is idempotent, '
         'the text is valid UTF-8 JSON without trailing whitespace, unknown kinds and # keys change nothing, and path / dict / '
         're-serialised forms give the same verdicts on 5 frames - over all single-kind sets and seeded random sets.',
-   note='Trusted: json round trip, str(datetime) layout. initialize_from_dict/to_json/load are bounded only.',
+   note='Trusted: json round trip. to_json / strip_lines / load are bounded only (incl. strings with U+0085/U+2028 and API-built sets).',
    technique='contract-based deductive verification of the value renderers and key ordering + bounded round-trip contracts',
    design_ref='DESIGN.md 5 C09')
 
@@ -155,7 +161,7 @@ CHECKS['C16'] = dict(
    text='Mixed. Exhaustive-domain (real functions, complete finite domains): csvw_date_format_to_md_date_format gives the strptime '
         'directive for every separator-delimited sequence of <= 2 (quick) / 3 (thorough) of the 12 documented tokens over the six '
         'separators; CSVW_TYPE_TO_MTYPE and MTYPE_TO_PANDAS_DTYPE are total over the 46 documented datatypes and compose to the dtype '
-        'family or a date parser. Bounded (labelled): instants written with 10 composed patterns are read back exactly by the translated '
+        'family or a date parser. Proved on the real csvw code: to_pandas_read_csv_args maps the metadata fields to the read_csv keywords (names, dtypes, date columns, delimiter, encoding, header). Bounded (labelled): instants written with 10 composed patterns are read back exactly by the translated '
         'format; seeded CSV files (integer/number/string/boolean/datetime with nulls) x delimiters x encodings x header present/absent x '
         'boolean spellings load through csv2pandas with the same names, declared types and values.',
    note='Trusted: str.replace semantics (extension of the token result to longer separator-delimited formats), pandas.read_csv, strptime. '
@@ -171,20 +177,24 @@ CHECKS['C17'] = dict(
         'in-process on 6 generated tables x CSV and parquet x ~20 flag sets give the same constraints (apart from creation metadata), '
         'pass/failure counts and detection files as the library on load_df(file); discovered constraints verify against their file; '
         'missing inputs / constraints files, unknown and contradictory flags exit non-zero and leave no output; 3 subprocess runs.',
-   note='Trusted: argparse, pandas readers/writers. Extension dispatch and the *_from_file front-ends are bounded only.',
+   note='Trusted: argparse, pandas readers/writers. The PandasDiscoverer/Verifier/Detector front-ends and discover_df_from_file are proved to hand the translated flags to the library call unchanged; extension dispatch is bounded only.',
    technique='contract-based deductive verification of the flag translators + bounded runtime comparison of CLI and library',
    design_ref='DESIGN.md 5 C17')
 
 CHECKS['C05'] = dict(
    category='other',
-   text='Mixed. Proved: resolve_option_flag (None/True -> all columns, False -> none, list as given, function applied to the frame). '
+   text='Mixed. Proved: resolve_option_flag (None/True -> all columns, False -> none, list as given, function applied to the frame); the verdict skeleton of the real '
+        'check_dataframe: failures == 0 iff no selected column is missing or extra, every selected type matches, the selected common columns are in the same relative order, '
+        'the row counts after the condition agree and the cell comparison of the selected data columns of the filtered frames reports zero differences - for every form of the four '
+        'option flags (None / True / False / list in any order / function), symbolic row counts, types_match per column and differing-cell count, over a finite family of column layouts '
+        '(reference a,b,c against 9 actual layouts: permuted, missing, extra). '
         'Exhaustive-domain: types_match satisfies the laws of the property (strict iff names equal, reflexive, symmetric, strict <= '
         'medium <= permissive) for every ordered pair of the dtype names the installed pandas/numpy produce x 4 levels. Bounded '
         '(labelled): check_dataframe / assertDataFramesEqual / file entry points on frame pairs over 11 column types: a copy passes, '
         'a changed checked cell, null-vs-value, a change beyond the precision, renamed/retyped/moved/missing/extra columns and changed '
         'row counts fail - as assertion failures with a message, never internal errors; option flags, sortby, condition.',
-   note='Trusted: pandas frame operations. The decision skeleton of check_dataframe is bounded only (3-row frames).',
-   technique='contract-based deductive verification of option resolution + exhaustive-domain type laws + bounded runtime contracts',
+   note='Trusted: pandas frame operations; types_match, same_structure_ddiff (cells), replace_cats and the message builders enter the skeleton proof as assumed contracts audited by the bounded layer. Column layouts outside the enumerated family are bounded only (3-row frames).',
+   technique='contract-based deductive verification of option resolution and the check_dataframe verdict skeleton + exhaustive-domain type laws + bounded runtime contracts',
    design_ref='DESIGN.md 5 C05')
 
 CHECKS['C08'] = dict(
